@@ -89,11 +89,13 @@ StringDictionaryHASHRPDACBlocks::StringDictionaryHASHRPDACBlocks(
         next_part_index = parts.size();
         parts.push_back(nullptr);
       }
+      LIBCSD_VERIF_POINT("b.reserved", next_part_index);
 
       wpool.add_task(
           [this, next_part_index, sub_it, overhead, &m, &parts_done, &cv]() {
             StringDictionary *sd =
                 new StringDictionaryHASHRPDAC(sub_it, 0, overhead);
+            LIBCSD_VERIF_POINT("b.built", next_part_index);
             {
               std::lock_guard lg(m);
               parts[next_part_index] = sd;
@@ -108,8 +110,10 @@ StringDictionaryHASHRPDACBlocks::StringDictionaryHASHRPDACBlocks(
       sample_next = true;
     }
   }
+  LIBCSD_VERIF_POINT("b.wait", parts.size());
   std::unique_lock<std::mutex> ul(m);
   cv.wait(ul, [this, &parts_done]() { return parts_done == parts.size(); });
+  LIBCSD_VERIF_POINT("b.complete", parts_done);
   wpool.stop_all_workers();
   wpool.wait_workers();
   delete it;
